@@ -287,6 +287,25 @@ fn model_traverse(m: &Model, h: H, out: &mut Vec<NodeEdge>) {
     out.push(NodeEdge::End(m.nodes[h].id));
 }
 
+/// advance j items, clone, then drain both: (rest of the clone, rest of the original)
+fn clone_mid<X, I: Iterator<Item = X> + Clone>(mut it: I, j: usize, bound: usize) -> (Vec<X>, Vec<X>) {
+    for _ in 0..j {
+        if it.next().is_none() {
+            break;
+        }
+    }
+    let c = it.clone();
+    (c.take(bound).collect(), it.take(bound).collect())
+}
+
+fn cmp_clone<X: PartialEq + std::fmt::Debug + Clone>(what: &str, start: NodeId, j: usize, got: (Vec<X>, Vec<X>), exp: &[X]) -> Result<(), (String, String)> {
+    let rest: Vec<X> = exp.iter().skip(j).cloned().collect();
+    if got.0 != rest || got.1 != rest {
+        bail!(format!("{}-clone-mid-iteration", what), "{} from node {}: after {} items a clone yields {:?} and the original {:?}; the rest of the sequence is {:?}", what, usize::from(start), j, got.0, got.1, rest);
+    }
+    Ok(())
+}
+
 fn cmp_seq<T: PartialEq + std::fmt::Debug>(what: &str, start: NodeId, got: &[T], exp: &[T]) -> Result<(), (String, String)> {
     if got != exp {
         bail!(format!("{}-sequence", what), "{} from node {}: yielded {:?}, the forest defines {:?}", what, usize::from(start), got, exp);
@@ -362,6 +381,32 @@ pub fn c09_traversals<P: Payload>(st: &State<P>) -> R {
             rexp.reverse();
             let got = drain_edges("reverse_traverse", id, id.reverse_traverse(a), bound)?;
             cmp_seq("reverse_traverse", id, &got, &rexp)?;
+            // a clone taken in the middle of an iteration continues where the original is
+            {
+                let j = (h * 7 + exp.len()) % (exp.len() + 1);
+                cmp_clone("traverse", id, j, clone_mid(id.traverse(a), j, bound), &exp)?;
+                cmp_clone("reverse_traverse", id, j, clone_mid(id.reverse_traverse(a), j, bound), &rexp)?;
+                let d: Vec<NodeId> = ids(m, &m.subtree(h));
+                let j = (h * 5 + 1) % (d.len() + 1);
+                cmp_clone("descendants", id, j, clone_mid(id.descendants(a), j, bound), &d)?;
+                let sib = m.siblings(h);
+                let (_, i) = m.pos(h);
+                let f: Vec<NodeId> = sib[i..].iter().map(|x| m.nodes[*x].id).collect();
+                let j = (h + 1) % (f.len() + 1);
+                cmp_clone("following_siblings", id, j, clone_mid(id.following_siblings(a), j, bound), &f)?;
+                let k: Vec<NodeId> = ids(m, m.children(h));
+                let j = (h + 2) % (k.len() + 1);
+                cmp_clone("children", id, j, clone_mid(id.children(a), j, bound), &k)?;
+                let mut anc = vec![id];
+                let mut cur = h;
+                while let Some(p) = m.parent(cur) {
+                    anc.push(m.nodes[p].id);
+                    cur = p;
+                }
+                let j = (h + 1) % (anc.len() + 1);
+                cmp_clone("ancestors", id, j, clone_mid(id.ancestors(a), j, bound), &anc)?;
+                obs += 6;
+            }
             // stepping reproduces the two sequences
             let mut got = vec![NodeEdge::Start(id)];
             let mut e = NodeEdge::Start(id);
@@ -1081,6 +1126,59 @@ pub fn c08_payloads<P: Payload>(st: &State<P>) -> R {
                 bail!("value", "node {} (slot {}): get/Index/as_slice read {:?} / {:?} / {:?}, last stored {:?}", h, n.slot + 1, via_get, via_idx, via_slice, exp);
             }
             obs += 3;
+        }
+        Ok(obs)
+    }))
+}
+
+/// `clone_from` into an arena that has a history of its own, then a removal in the copy:
+/// every other live node of the copy must keep the payload last stored for it.
+pub fn c08_clone_from_probe<P: Payload>(st: &State<P>, rng: &mut Rng) -> R {
+    wrap(&["C08"], "clone_from-probe", guarded(|| {
+        let m = &st.model;
+        let live = m.live_handles();
+        if live.len() < 2 {
+            return Ok(0);
+        }
+        // destination with its own slots and its own pending free list
+        let mut d: Arena<P> = Arena::new();
+        let k = rng.range(1, 2 * m.slot_count().max(2));
+        let mut ids = Vec::new();
+        for i in 0..k {
+            ids.push(d.new_node(P::make(u64::MAX - 7, i as u64)));
+        }
+        let mut nrem = rng.below(k + 1);
+        while nrem > 0 && !ids.is_empty() {
+            let i = rng.below(ids.len());
+            ids.swap_remove(i).remove(&mut d);
+            nrem -= 1;
+        }
+        d.clone_from(&st.arena);
+        let mut obs = 0;
+        for _ in 0..3 {
+            let x = live[rng.below(live.len())];
+            let mut d2 = d.clone();
+            if rng.chance(1, 2) {
+                m.nodes[x].id.remove(&mut d2);
+            } else {
+                m.nodes[x].id.remove_subtree(&mut d2);
+            }
+            let gone: HashSet<H> = m.subtree(x).into_iter().collect();
+            for &h in &live {
+                if h == x || gone.contains(&h) {
+                    continue;
+                }
+                let n = &m.nodes[h];
+                let got = guarded(|| {
+                    let p = d2[n.id].get();
+                    (p.tid(), p.val())
+                });
+                match got {
+                    Ok(v) if v == (n.tid, n.val) => obs += 1,
+                    Ok(v) => bail!("payload-changed", "after clone_from + removal of node {} in the copy, node {} reads {:?}, last stored {:?}", x, h, v, (n.tid, n.val)),
+                    Err(p) => bail!("payload-lost", "after clone_from + removal of node {} in the copy, reading live node {} panicked: {}", x, h, p),
+                }
+            }
         }
         Ok(obs)
     }))
